@@ -1,10 +1,73 @@
 import Driver.Util
+import ReplicatModel.Layout
 open Lean Replicat
 namespace Driver
 
-/-- requests `layout.* / restore.*` (see DESIGN.md Appendix A) -/
+def lexLE : List Nat → List Nat → Bool
+  | [], _ => true
+  | _ :: _, [] => false
+  | a :: as, b :: bs => if a < b then true else if b < a then false else lexLE as bs
+
+/-- `files.sort(key=lambda file: (file.stat().st_size, str(file)))` — paths as code-point lists -/
+def sortKeyLE (a b : (Nat × List Nat) × Nat) : Bool :=
+  if a.1.1 < b.1.1 then true else if b.1.1 < a.1.1 then false else lexLE a.1.2 b.1.2
+
+def refJson (r : Ref) : Json := natArr [r.counter, r.lo, r.hi]
+
+def getRefs (j : Json) (k : String) : Except String (List Ref) := do
+  let a ← getArr j k
+  a.toList.mapM fun x => do
+    let l ← (← x.getArr?).toList.mapM (·.getNat?)
+    match l with
+    | [c, lo, hi] => pure ⟨c, lo, hi⟩
+    | _ => throw "ref must be [counter, lo, hi]"
+
+/-- requests `layout.*` / `restore.*` (see DESIGN.md Appendix A) -/
 def handleLayout (op : String) (j : Json) : Except String Json := do
   match op with
+  | "layout.records" =>
+    -- files: [{"size": n, "path": [code points]}] in argument order; lens: chunk lengths; order: completion order of the chunks
+    let align ← getNat j "align"
+    let fs ← (← getArr j "files").toList.mapM fun x => do
+      let sz ← getNat x "size"
+      let p ← getNatList x "path"
+      pure (sz, p)
+    let lens ← getNatList j "lens"
+    let order ← getNatList j "order"
+    let sorted := (fs.zipIdx).mergeSort sortKeyLE
+    let sizes := sorted.map (·.1.1)
+    let lay := layout align sizes
+    let spans := spansFrom 0 lens
+    let recs := finalRecords sizes.length (records lay spans order)
+    let perFile := (sorted.zipIdx).map fun (fi, k) =>
+      let refs := lookupRec recs k
+      let sp := lay[k]?.getD (0, 0)
+      Json.mkObj [
+        ("input_index", jnat fi.2),
+        ("start", jnat sp.1), ("end", jnat sp.2),
+        ("has_record", Json.bool refs.isSome),
+        ("refs", Json.arr (((refs.getD []).mergeSort refLE).map refJson).toArray),
+        ("tiling", Json.arr ((tiling (refs.getD [])).map (fun t => natArr [t.1, t.2.1, t.2.2])).toArray),
+        ("size", jnat (planSize (refs.getD [])))]
+    pure (Json.mkObj [("files", Json.arr perFile.toArray),
+                      ("record_order", natArr (recs.map (fun e => (sorted[e.1]?.map (·.2)).getD 0))),
+                      ("stream_length", jnat ((lay.getLast?.map (·.2)).getD 0))])
+  | "restore.apply" =>
+    -- chunks: [hex] by counter-1; refs: [[counter,lo,hi]]; old: hex or null; order: permutation of plan positions
+    let chunks ← (← getArr j "chunks").toList.mapM (fun x => do unhex (← x.getStr?))
+    let refs ← getRefs j "refs"
+    let old ← match j.getObjVal? "old" with
+      | .ok (Json.str s) => (unhex s).map some
+      | _ => pure none
+    let order ← getNatList j "order"
+    let pl := plan refs
+    let ws := order.filterMap (fun k => pl[k]?)
+    match restoreFile chunks old refs ws with
+    | some b => pure (Json.mkObj [("result", Json.str (hex b)), ("plan", Json.arr (pl.map (fun e => natArr [e.1, e.2.1, e.2.2.1, e.2.2.2])).toArray)])
+    | none => pure (Json.mkObj [("result", Json.null)])
+  | "layout.flatten" =>
+    let ex ← (← getArr j "expanded").toList.mapM (fun x => do (← x.getArr?).toList.mapM (·.getNat?))
+    pure (Json.mkObj [("files", natArr (flattenArgs ex))])
   | _ => throw s!"unknown op {op}"
 
 end Driver
